@@ -66,6 +66,7 @@ class Engine:
         self.samples = []
         self.notes = {}
         self.on_path_end = None
+        self.prefer = []         # optional constraints for nicer counterexample models (never affect verdicts)
 
     # -- solver access -------------------------------------------------------
     def check(self, *extra):
@@ -153,6 +154,17 @@ class Engine:
         neg = z3.Not(cond)
         r = self.check(neg)
         if r == z3.sat:
+            if self.prefer:
+                # same query with readability preferences; fall back to the plain model
+                self.solver.push()
+                try:
+                    self.solver.add(neg, *self.prefer)
+                    if self.check() == z3.sat:
+                        raise Violation(kind, self.solver.model(), info)
+                finally:
+                    self.solver.pop()
+                if self.check(neg) != z3.sat:
+                    raise HarnessError("solver flip-flopped on a violated VC")
             raise Violation(kind, self.solver.model(), info)
         if r == z3.unsat:
             self.vcs += 1
@@ -179,11 +191,15 @@ class Engine:
         self.vc_unknown += 1
 
     def path_model(self):
-        """Model of the current path condition (None if not shown sat)."""
+        """Model of the current path condition (None if not shown sat); readable values preferred."""
         r = self.check()
-        if r == z3.sat:
-            return self.solver.model()
-        return None
+        if r != z3.sat:
+            return None
+        if self.prefer:
+            if self.check(*self.prefer) == z3.sat:
+                return self.solver.model()
+            self.check()
+        return self.solver.model()
 
     # -- exploration -----------------------------------------------------------
     def explore(self, fn):
